@@ -9,8 +9,8 @@ use std::collections::VecDeque;
 use std::panic::{catch_unwind, AssertUnwindSafe};
 use std::sync::Arc;
 
-pub const NKINDS: u8 = 12;
-pub const KIND_NAMES: [&str; 12] = [
+pub const NKINDS: u8 = 14;
+pub const KIND_NAMES: [&str; 14] = [
     "slice",
     "bytes-promotable",
     "bytes-shared-offset",
@@ -23,6 +23,8 @@ pub const KIND_NAMES: [&str; 12] = [
     "cursor-bytes(pos)",
     "cursor-past-end",
     "bytes-owner",
+    "user Buf (honest, 1-3 byte chunks, default methods only)",
+    "user Buf (honest, remaining() near usize::MAX)",
 ];
 
 #[derive(Clone, Debug, PartialEq)]
@@ -86,7 +88,7 @@ impl Spec {
 /// reference model of the adapters: obviously-correct re-implementation over plain vectors
 #[derive(Clone, Debug)]
 pub enum MNode {
-    Leaf { rest: Vec<u8> },
+    Leaf { rest: Vec<u8>, extra: usize, chunk_cap: usize },
     Chain(Box<MNode>, Box<MNode>),
     Take(Box<MNode>, usize),
     Wrap(Box<MNode>),
@@ -94,10 +96,17 @@ pub enum MNode {
 impl MNode {
     pub fn rest(&self) -> Vec<u8> {
         match self {
-            MNode::Leaf { rest } => rest.clone(),
+            MNode::Leaf { rest, extra, .. } => {
+                // materialised prefix: the real bytes plus up to 4096 of the virtual filler
+                let mut v = rest.clone();
+                v.extend(std::iter::repeat(0x5Au8).take((*extra).min(4096)));
+                v
+            }
             MNode::Chain(a, b) => {
                 let mut v = a.rest();
-                v.extend(b.rest());
+                if a.remaining() <= v.len() {
+                    v.extend(b.rest());
+                }
                 v
             }
             MNode::Take(i, l) => {
@@ -110,16 +119,18 @@ impl MNode {
     }
     pub fn remaining(&self) -> usize {
         match self {
-            MNode::Leaf { rest } => rest.len(),
-            MNode::Chain(a, b) => a.remaining() + b.remaining(),
+            MNode::Leaf { rest, extra, .. } => rest.len().saturating_add(*extra),
+            MNode::Chain(a, b) => a.remaining().saturating_add(b.remaining()),
             MNode::Take(i, l) => i.remaining().min(*l),
             MNode::Wrap(i) => i.remaining(),
         }
     }
     pub fn advance(&mut self, n: usize) {
         match self {
-            MNode::Leaf { rest } => {
-                rest.drain(..n);
+            MNode::Leaf { rest, extra, .. } => {
+                let k = n.min(rest.len());
+                rest.drain(..k);
+                *extra -= n - k;
             }
             MNode::Chain(a, b) => {
                 let x = a.remaining().min(n);
@@ -136,7 +147,13 @@ impl MNode {
     /// length of the first physical fragment (what an honest `chunk()` could at most return)
     pub fn first_fragment(&self) -> usize {
         match self {
-            MNode::Leaf { rest } => rest.len(),
+            MNode::Leaf { rest, extra, chunk_cap } => {
+                if !rest.is_empty() {
+                    rest.len().min(*chunk_cap)
+                } else {
+                    (*extra).min(64).min(*chunk_cap)
+                }
+            }
             MNode::Chain(a, b) => {
                 if a.remaining() > 0 {
                     a.first_fragment()
@@ -165,7 +182,21 @@ impl Arena {
     }
 }
 
-pub fn build_leaf(kind: u8, data: &[u8], pre: u8, arena: &mut Arena) -> (Node, Vec<u8>) {
+pub fn build_leaf(kind: u8, data: &[u8], pre: u8, arena: &mut Arena) -> (Node, (Vec<u8>, usize, usize)) {
+    let (n, v) = build_leaf_inner(kind, data, pre, arena);
+    n_with(n, v)
+}
+fn n_with(n: Node, v: Vec<u8>) -> (Node, (Vec<u8>, usize, usize)) {
+    match &n {
+        Node::User(u) => {
+            let (e, c) = (u.extra, u.max_chunk.max(1));
+            (n, (v, e, c))
+        }
+        _ => (n, (v, 0, usize::MAX)),
+    }
+}
+fn build_leaf_inner(kind: u8, data: &[u8], pre: u8, arena: &mut Arena) -> (Node, Vec<u8>) {
+    let pre_raw = pre;
     let pre = (pre % 8) as usize;
     let prefix: Vec<u8> = (0..pre).map(|i| 0xE0 + i as u8).collect();
     let with_prefix = || {
@@ -228,6 +259,8 @@ pub fn build_leaf(kind: u8, data: &[u8], pre: u8, arena: &mut Arena) -> (Node, V
             c.set_position(if pre % 2 == 0 { data.len() as u64 + 1 + pre as u64 } else { u64::MAX - pre as u64 });
             (Node::CursorVec(c), Vec::new())
         }
+        12 => (Node::User(UserBuf { data: data.to_vec(), pos: 0, max_chunk: 1 + (pre_raw as usize % 3), extra: 0 }), data.to_vec()),
+        13 => (Node::User(UserBuf { data: data.to_vec(), pos: 0, max_chunk: 8, extra: usize::MAX - 1000 - pre_raw as usize }), data.to_vec()),
         _ => {
             let owner = Owner { buf: OwnerBuf::V(data.to_vec()), stats: Arc::new(OwnerStats::default()), panic_in_as_ref: false };
             (Node::Bytes(Bytes::from_owner(owner)), data.to_vec())
@@ -239,7 +272,7 @@ pub fn build(spec: &Spec, arena: &mut Arena) -> (Node, MNode) {
     match spec {
         Spec::Leaf { kind, data, pre } => {
             let (n, logical) = build_leaf(*kind, data, *pre, arena);
-            (n, MNode::Leaf { rest: logical })
+            (n, MNode::Leaf { rest: logical.0, extra: logical.1, chunk_cap: logical.2 })
         }
         Spec::Chain(a, b) => {
             let (na, ma) = build(a, arena);
@@ -285,7 +318,7 @@ pub struct BStats {
     pub ops: [u64; 32],
     pub panics: u64,
     pub struct_walks: u64,
-    pub leaf_kinds: [u64; 12],
+    pub leaf_kinds: [u64; 14],
     pub getters: [u64; 38],
     pub try_getters: [u64; 38],
     pub vectored_slices: u64,
@@ -293,7 +326,7 @@ pub struct BStats {
 }
 impl Default for BStats {
     fn default() -> Self {
-        BStats { ops: [0; 32], panics: 0, struct_walks: 0, leaf_kinds: [0; 12], getters: [0; 38], try_getters: [0; 38], vectored_slices: 0, classes: [0; 8] }
+        BStats { ops: [0; 32], panics: 0, struct_walks: 0, leaf_kinds: [0; 14], getters: [0; 38], try_getters: [0; 38], vectored_slices: 0, classes: [0; 8] }
     }
 }
 pub const CLASS_NAMES: [&str; 8] = [
@@ -320,14 +353,14 @@ fn sel_n(a: u32, chunk: usize, rem: usize) -> usize {
         2 => chunk,
         3 => chunk + 1,
         4 => rem,
-        5 => rem + 1,
+        5 => rem.saturating_add(1),
         6 => chunk.saturating_sub(1),
         7 => rem.saturating_sub(1),
         8 => rem / 2,
         9 => 2,
         10 => chunk + 2,
         11 => usize::MAX,
-        _ => ((a as usize / 16) % (rem + 2)),
+        _ => ((a as usize / 16) % (rem.min(1 << 20) + 2)),
     }
 }
 fn sel_limit(a: u32, chunk: usize, rem: usize) -> usize {
@@ -335,13 +368,13 @@ fn sel_limit(a: u32, chunk: usize, rem: usize) -> usize {
         0 => 0,
         1 => rem / 2,
         2 => rem,
-        3 => rem + 1,
+        3 => rem.saturating_add(1),
         4 => usize::MAX,
         5 => chunk,
         6 => chunk.saturating_sub(1),
         7 => chunk + 1,
         8 => 1,
-        _ => (a as usize / 10) % (rem + 3),
+        _ => (a as usize / 10) % (rem.min(1 << 20) + 3),
     }
 }
 
@@ -464,13 +497,21 @@ impl<'a> BInterp<'a> {
     pub fn observe(&mut self) {
         let Some(root) = self.root.as_ref() else { return };
         let rest = self.model.rest();
-        let rem = root.remaining();
+        let mrem = self.model.remaining();
+        let rem = match catch_unwind(AssertUnwindSafe(|| root.remaining())) {
+            Ok(r) => r,
+            Err(_) => {
+                self.v("C09", "unexpected-panic", format!("remaining() panicked ({} bytes are left in the sequence)", mrem));
+                self.ended = true;
+                return;
+            }
+        };
         let mut bad: Vec<(&'static str, &'static str, String)> = Vec::new();
-        if rem != rest.len() {
-            bad.push(("C09", "remaining", format!("remaining()={} but {} bytes are left in the sequence", rem, rest.len())));
+        if rem != mrem {
+            bad.push(("C09", "remaining", format!("remaining()={} but {} bytes are left in the sequence", rem, mrem)));
         }
-        if root.has_remaining() != (rest.len() > 0) {
-            bad.push(("C09", "has_remaining", format!("has_remaining()={} with {} bytes left", root.has_remaining(), rest.len())));
+        if root.has_remaining() != (mrem > 0) {
+            bad.push(("C09", "has_remaining", format!("has_remaining()={} with {} bytes left", root.has_remaining(), mrem)));
         }
         let ch = root.chunk();
         if ch.len() > rest.len() || ch != &rest[..ch.len()] {
@@ -492,7 +533,8 @@ impl<'a> BInterp<'a> {
             return;
         }
         let rest = self.model.rest();
-        let rem = rest.len();
+        let rem = self.model.remaining();
+        let mat = rest.len(); // materialised prefix of the sequence (all of it unless a leaf has virtual filler)
         let chunk = self.model.first_fragment().min(rem);
         let code = code % 21;
         self.st.ops[code as usize] += 1;
@@ -553,8 +595,8 @@ impl<'a> BInterp<'a> {
             }
             3 | 4 => {
                 let n = sel_n(a, chunk, rem);
-                if n > (1 << 20) {
-                    // a destination of that size cannot be allocated; the shortfall classes rem+1 / chunk+1 cover it
+                if n > (1 << 20) || (n <= rem && n > mat) {
+                    // a destination of that size cannot be allocated / compared; the shortfall classes rem+1 / chunk+1 cover it
                     return;
                 }
                 btr!(self, "{}(dst.len() = {}) [remaining {}]", OP_NAMES[code as usize], n, rem);
@@ -589,7 +631,7 @@ impl<'a> BInterp<'a> {
             }
             5 => {
                 let n = sel_n(a, chunk, rem);
-                if n > (1 << 20) && n <= rem {
+                if n <= rem && (n > (1 << 20) || n > mat) {
                     return;
                 }
                 btr!(self, "copy_to_bytes({}) [remaining {}]", n, rem);
@@ -665,7 +707,7 @@ impl<'a> BInterp<'a> {
                 btr!(self, "self = self.take({})", l);
                 let root = self.root.take().unwrap();
                 self.root = Some(Node::Take(Buf::take(Box::new(root), l)));
-                let m = std::mem::replace(&mut self.model, MNode::Leaf { rest: vec![] });
+                let m = std::mem::replace(&mut self.model, MNode::Leaf { rest: vec![], extra: 0, chunk_cap: usize::MAX });
                 self.model = MNode::Take(Box::new(m), l);
                 if l > 0 && l < chunk {
                     self.flags.take_inside_chunk = true;
@@ -675,15 +717,15 @@ impl<'a> BInterp<'a> {
                 let n = (b % 7) as usize;
                 let data: Vec<u8> = (0..n).map(|i| 0x90 + ((a as usize + i) % 64) as u8).collect();
                 let (leaf, logical) = build_leaf((a % NKINDS as u32) as u8, &data, (b / 7) as u8, &mut self.arena);
-                btr!(self, "self = chain({}) with a {}-byte {} leaf", if code == 9 { "self, leaf" } else { "leaf, self" }, logical.len(), KIND_NAMES[(a % NKINDS as u32) as usize]);
+                btr!(self, "self = chain({}) with a {}-byte {} leaf", if code == 9 { "self, leaf" } else { "leaf, self" }, logical.0.len(), KIND_NAMES[(a % NKINDS as u32) as usize]);
                 let root = self.root.take().unwrap();
-                let m = std::mem::replace(&mut self.model, MNode::Leaf { rest: vec![] });
+                let m = std::mem::replace(&mut self.model, MNode::Leaf { rest: vec![], extra: 0, chunk_cap: usize::MAX });
                 if code == 9 {
                     self.root = Some(Node::Chain(Buf::chain(Box::new(root), Box::new(leaf))));
-                    self.model = MNode::Chain(Box::new(m), Box::new(MNode::Leaf { rest: logical }));
+                    self.model = MNode::Chain(Box::new(m), Box::new(MNode::Leaf { rest: logical.0, extra: logical.1, chunk_cap: logical.2 }));
                 } else {
                     self.root = Some(Node::Chain(Buf::chain(Box::new(leaf), Box::new(root))));
-                    self.model = MNode::Chain(Box::new(MNode::Leaf { rest: logical }), Box::new(m));
+                    self.model = MNode::Chain(Box::new(MNode::Leaf { rest: logical.0, extra: logical.1, chunk_cap: logical.2 }), Box::new(m));
                 }
             }
             11 => {
@@ -704,7 +746,7 @@ impl<'a> BInterp<'a> {
                 let mut rd = Buf::reader(root);
                 match code {
                     12 => {
-                        let n = sel_n(a, chunk, rem).min(1 << 16);
+                        let n = sel_n(a, chunk, rem).min(1 << 11);
                         btr!(self, "reader().read(dst.len() = {}) [remaining {}]", n, rem);
                         let mut dst = vec![0xCCu8; n];
                         let r = catch_unwind(AssertUnwindSafe(|| rd.read(&mut dst)));
@@ -747,6 +789,7 @@ impl<'a> BInterp<'a> {
                             _ => self.v("C12", "reader-fill_buf-failed", "error or panic".to_string()),
                         }
                     }
+                    _ if rem > (1 << 16) || rem > mat => {}
                     _ => {
                         btr!(self, "reader().read_to_end() [remaining {}]", rem);
                         let mut out = Vec::new();
@@ -770,6 +813,7 @@ impl<'a> BInterp<'a> {
                 }
                 self.root = Some(rd.into_inner());
             }
+            15 if rem > (1 << 16) || rem > mat => {}
             15 => {
                 btr!(self, "into_iter().collect() [remaining {}]", rem);
                 let root = self.root.take().unwrap();
@@ -797,18 +841,18 @@ impl<'a> BInterp<'a> {
                 btr!(self, "self = &mut self");
                 let root = self.root.take().unwrap();
                 self.root = Some(Node::MutRef(MRef::new(root)));
-                let m = std::mem::replace(&mut self.model, MNode::Leaf { rest: vec![] });
+                let m = std::mem::replace(&mut self.model, MNode::Leaf { rest: vec![], extra: 0, chunk_cap: usize::MAX });
                 self.model = MNode::Wrap(Box::new(m));
             }
             17 => {
                 btr!(self, "self = Box::new(self)");
                 let root = self.root.take().unwrap();
                 self.root = Some(Node::Boxed(Box::new(root)));
-                let m = std::mem::replace(&mut self.model, MNode::Leaf { rest: vec![] });
+                let m = std::mem::replace(&mut self.model, MNode::Leaf { rest: vec![], extra: 0, chunk_cap: usize::MAX });
                 self.model = MNode::Wrap(Box::new(m));
             }
             18 => {
-                let k = sel_n(a, chunk, rem).min(rem);
+                let k = sel_n(a, chunk, rem).min(rem).min(2048);
                 btr!(self, "into_iter(): take {} items, then into_inner()", k);
                 let root = self.root.take().unwrap();
                 let mut it = bytes::buf::IntoIter::new(root);
@@ -830,8 +874,10 @@ impl<'a> BInterp<'a> {
                             self.model.advance(k);
                             self.note_span(k, rem, chunk);
                         }
-                        if hint != (rem - k, Some(rem - k)) {
-                            self.v("C09", "into_iter-size_hint", format!("{:?} with {} bytes left", hint, rem - k));
+                        // (expected from the model after the advance: sums near usize::MAX saturate)
+                        let after = self.model.remaining();
+                        if self.viols.is_empty() && hint != (after, Some(after)) {
+                            self.v("C09", "into_iter-size_hint", format!("{:?} with {} bytes left", hint, after));
                         }
                     }
                     Err(_) => self.v("C09", "unexpected-panic", "IntoIter::next panicked".to_string()),
@@ -959,8 +1005,15 @@ type Bad = Vec<(&'static str, &'static str, String)>;
 fn walk_struct(n: &Node, m: &MNode, path: &mut String, bad: &mut Bad, st: &mut BStats, fl: &mut BFlags) {
     // every sub-tree is itself a Buf: its remaining() and chunk() must agree with the model's sub-tree
     let rest = m.rest();
-    if n.remaining() != rest.len() {
-        bad.push(("C12", "inner-buffer-remaining", format!("at {}: remaining()={} model {}", if path.is_empty() { "root" } else { path.as_str() }, n.remaining(), rest.len())));
+    let nrem = match catch_unwind(AssertUnwindSafe(|| n.remaining())) {
+        Ok(r) => r,
+        Err(_) => {
+            bad.push(("C12", "inner-buffer-remaining", format!("at {}: remaining() panicked", if path.is_empty() { "root" } else { path.as_str() })));
+            return;
+        }
+    };
+    if nrem != m.remaining() {
+        bad.push(("C12", "inner-buffer-remaining", format!("at {}: remaining()={} model {}", if path.is_empty() { "root" } else { path.as_str() }, nrem, m.remaining())));
         return;
     }
     let ch = n.chunk();
@@ -1032,7 +1085,12 @@ fn dismantle(n: Node, m: &MNode, bad: &mut Bad) {
         }
         (Node::MutRef(r), MNode::Wrap(mi)) => dismantle(r.into_inner(), mi, bad),
         (Node::Boxed(b), MNode::Wrap(mi)) => dismantle(*b, mi, bad),
-        (leaf, MNode::Leaf { rest }) => {
+        (leaf, MNode::Leaf { extra, .. }) if *extra > 0 => {
+            if leaf.remaining() != m.remaining() {
+                bad.push(("C12", "into_inner-leaf-state", format!("endless leaf reports {} remaining, model says {}", leaf.remaining(), m.remaining())));
+            }
+        }
+        (leaf, MNode::Leaf { rest, .. }) => {
             let r = catch_unwind(AssertUnwindSafe(|| drain(leaf)));
             match r {
                 Ok(got) => {
